@@ -6,7 +6,7 @@ Line protocol of the dispatch model (C11):
 
   reset <n>                                   n empty probe blocks
   blk <i> probe <init> <a> <b> <need>         scripts: `-` or acts joined by `;`
-                                              act: o<val> | s<i>:<val or -> | r | e<dest>:<etype>
+                                              act: o<val> | s<i>:<val or -> | t<i>:<val or -> (send, swallow exceptions) | r | e<dest>:<etype>
   blk <i> input <initdef or u> <allowed: - or val,val,…>
   blk <i> counter <modulo or n> <initdef>
   blk <i> outfunc <v | f | c<val>>            user function: returns its argument / raises / constant
@@ -64,6 +64,13 @@ def parseAct (s : String) : Option Act :=
       let i ← i.toNat?
       let v ← parseOptVal v
       pure (.send i v)
+    | _ => Option.none
+  | 't' :: r =>
+    match (String.ofList r).splitOn ":" with
+    | [i, v] => do
+      let i ← i.toNat?
+      let v ← parseOptVal v
+      pure (.trySend i v)
     | _ => Option.none
   | 'e' :: r =>
     match (String.ofList r).splitOn ":" with
